@@ -190,6 +190,8 @@ class PrivateKey(EmbitKey):
         for net in NETWORKS:
             if NETWORKS[net]["wif"] == prefix:
                 network = NETWORKS[net]
+        if network is None:
+            raise ECError("Unknown WIF version byte")
         secret = b[1:33]
         compressed = False
         if len(b) not in [33, 34]:
